@@ -862,6 +862,57 @@ func ruleQueueDetach(c *Ctx) {
 		if !detached {
 			continue // plain clear (Dispose): nothing is taken over
 		}
+		// a take-all helper: the obligation is its callers'
+		if p.takesField(fn, fQ) {
+			if node := p.CG.Nodes[fn]; node != nil {
+				for _, e := range node.In {
+					if e.Site == nil || e.Site.Common().StaticCallee() != fn {
+						continue
+					}
+					site := e.Site
+					root := TopLevel(site.Parent())
+					n++
+					c.inst(1)
+					sp := &Spec{NoHelpers: true}
+					sp.Classify = func(t *Tracer, fr *Frame, in ssa.Instruction) []Ev {
+						if in == ssa.Instruction(site) {
+							return []Ev{{Kind: "detach", Stop: true}}
+						}
+						if call, ok := isBuiltinCall(in, "len"); ok {
+							if r := t.Resolve(fr, call.Call.Args[0]).V; r == site.(ssa.Value) {
+								return []Ev{{Kind: "loop"}}
+							}
+						}
+						if _, ok := in.(*ssa.Return); ok && fr == t.RootFr {
+							return []Ev{{Kind: "return"}}
+						}
+						return nil
+					}
+					tr := runTrace(p, root, sp)
+					bad := ""
+					for _, path := range tr.Paths {
+						d := indexKind(path, "detach")
+						if d < 0 {
+							continue
+						}
+						looped := false
+						for _, e2 := range path[d:] {
+							if e2.Kind == "loop" {
+								looped = true
+							}
+						}
+						if !looped {
+							bad = "a path returns after taking the queued events off the subscription without entering the loop that processes (or re-queues) them: " + tr.FmtPath(path)
+						}
+					}
+					if tr.Trunc {
+						bad = "path budget exhausted"
+					}
+					c.check(bad == "", fnName(root), "detached event queue is processed or re-queued on every path", p.InstrPos(site), fmt.Sprintf("%d paths (queue taken through %s)", len(tr.Paths), fnName(fn)), bad)
+				}
+			}
+			continue
+		}
 		n++
 		c.inst(1)
 		sp := &Spec{NoHelpers: true}
@@ -904,4 +955,24 @@ func ruleQueueDetach(c *Ctx) {
 	if n == 0 {
 		c.viol("server.Subscription.eventQueue", "detached event queue is processed or re-queued on every path", "-", "no detach site found")
 	}
+}
+
+// takesField: fn is a small unexported helper that stores nil to field f and
+// returns what the field held before (`func (q *queue) takeAll() []T`).
+func (p *Prog) takesField(fn *ssa.Function, f *types.Var) bool {
+	if fn == nil || fn.Parent() != nil || len(fn.Blocks) == 0 || len(fn.Blocks) > 3 {
+		return false
+	}
+	for _, st := range p.stores[f] {
+		if st.Parent() != fn || !isNilConst(st.Val) {
+			continue
+		}
+		for _, ld := range p.loads[f] {
+			li, ok := ld.(ssa.Instruction)
+			if ok && li.Parent() == fn && dominates(li, st) && returnsValue(fn, ld.(ssa.Value)) {
+				return true
+			}
+		}
+	}
+	return false
 }
